@@ -90,3 +90,10 @@ package types
 // protobuf Any unpacking of the requested content: abstract
 //@ func (m *MsgRequestSignature) GetContent
 //@ abstract
+
+// ---- C02/C14: parameter validation accepts only reward percentages that are percentages ---------------------
+// (a value above 100 makes the begin-blocker ask the fee collector for more than it holds: the transfer fails, the
+// begin-blocker returns the error and the block cannot be finalized)
+//@ extern (d time.Duration) Seconds() (result)
+//@ func (p Params) Validate
+//@ ensures err == nil ==> p.RewardPercentage <= 100
